@@ -48,6 +48,11 @@ def generate(rng, tier):
 
     kt = 30 if tier == "quick" else 700
     cases += [{"t": True, "ops": wstypes.gen_history_t(rng.fork(14000 + i), rng.range(12, 24))} for i in range(kt)]
+    # oracle-only stream: the extended histories (all object classes, data kinds, shared / caller-supplied types, property
+    # groups, several children removed at once, copies into both workspaces, refused creations, names that collide with the
+    # file layout) with a digest of every stored node of both files after every operation
+    ke = 30 if tier == "quick" else 600
+    cases += [{"ext": True, "ops": wsext.gen_ext_history(rng.fork(21000 + i), rng.range(18, 34))} for i in range(ke)]
     return cases
 
 
@@ -60,6 +65,10 @@ def drive_one(case, work):
         from props import wsext
 
         return wsext.run_dh_history(case["ops"], work, "c09d")
+    if case.get("ext"):
+        from props import wsext
+
+        return wsext.run_ext_history(case["ops"], work, "c09e", want_digests=True)
     return W.run_history_x(case["ops"], work, "c09", want_digests=True)
 
 
@@ -68,7 +77,7 @@ def case_term(case, obs):
         from props import wstypes
 
         return wstypes.history_case_term_t(case["ops"], obs["steps"])
-    if case.get("dh"):
+    if case.get("dh") or case.get("ext"):
         return None  # outside the Coq model
     return W.history_case_term_x(obs["ops_filled"], obs["steps"])
 
@@ -114,6 +123,10 @@ def oracle(case, obs):
         from props import wsext
 
         return wsext.oracle_dh(case, obs)
+    if case.get("ext"):
+        from props import wsext
+
+        return wsext.oracle_ext_frame(case, obs)
     ops, steps, dig, rp = obs.get("ops_filled", case["ops"]), obs["steps"], obs["digests"], obs["root_path"]
     fails = []
     for i, op in enumerate(ops):
@@ -185,6 +198,8 @@ def nontrivial(case, obs):
         return any(o["op"] in ("rm_ws", "rm_parent", "types") for o in case["ops"]) and any(o["op"] == "create" and o["k"] == "D" for o in case["ops"])
     if case.get("dh"):
         return sum(1 for o in case["ops"] if o["op"] in ("hole_data", "dh_update", "dh_rm", "dh_copy")) >= 3
+    if case.get("ext"):
+        return sum(1 for o, st in zip(case["ops"], obs.get("steps", [])) if st["outcome"] == "done" and o["op"] not in ("reopen", "listing")) >= 8
     muts = sum(1 for o in case["ops"] if o["op"] not in ("sweep", "reopen"))
     big = any(len(st["mem"]) >= 4 for st in obs.get("steps", [])) if isinstance(obs, dict) else False
     return muts >= 3 and big
